@@ -315,6 +315,7 @@ def run(rep, facts, tier):
     rule_19_7(rep, fx)
     rule_19_8(rep, fx)
     rule_19_9(rep, fx)
+    rule_19_10(rep, fx)
 
     # ------------------------------------------------------------ R19.6 crossed roles (shared lint, rdv/swaplint.py)
     from rdv import swaplint
@@ -767,3 +768,63 @@ def rule_19_9(rep, fx):
             rep.check(good, 'R19.9', '%s/rejected-resets-resends' % hname, 'Err from %s => reset_stored_message_resend_counter' % pcall,
                       '%s: a message the plugin rejects does not reset the resend counter of the own message that is waiting for its answer: forged messages can use up the resends, '
                       'after which the genuine handshake cannot complete' % hname, h.where())
+
+
+def rule_19_10(rep, fx):
+    """The replier's key pair is of the kind the initiator asked for (otherwise the two sides cannot derive one shared secret)."""
+    rep.rule('R19.10', 'key agreement kinds agree: in begin_handshake_reply a DH key pair is generated by DHKeys::new_<kind>_keys only behind the equal edge of a comparison of the '
+                       'received c.kagree_algo with the algorithm name that DHKeys::kagree_algo_name_str gives for the variant this constructor builds (Modp <-> DH+MODP, EC <-> ECDH); '
+                       'any other name is refused')
+    ks = [b for b in fx.bodies if b.name == 'kagree_algo_name_str' and b.key.startswith(AUTH)]
+    if len(ks) != 1:
+        raise CheckBroken('R19.10: DHKeys::kagree_algo_name_str not found')
+    k = ks[0]
+    rep.analysed(k)
+    name_of = {}
+    for s_, t_, cond, lab in switch_edges(k, fx, Origins(k)):
+        if isinstance(lab, str) and cond[0] == 'discr':
+            bb = t_
+            for _ in range(4):
+                for st in k.blocks[bb]['st']:
+                    if st.get('s') == 'assign' and st['lhs'].get('l') == 0 and not st['lhs'].get('p'):
+                        x = st['rv'].get('x', {})
+                        d = (x.get('k') or {}).get('def')
+                        if d:
+                            name_of[lab] = d
+                t = k.blocks[bb]['term']
+                if lab in name_of or t['t'] != 'goto':
+                    break
+                bb = t['target']
+    makers = {}
+    for b in fx.bodies:
+        if b.key.startswith(AUTH + 'DHKeys::new_') and b.kind in ('fn', 'assoc_fn'):
+            vs = set(st['rv'].get('variant') for _bb, _si, st in b.statements() if st.get('s') == 'assign' and st['rv'].get('r') == 'agg' and
+                     (st['rv'].get('adt') or '').endswith('DHKeys') and st['rv'].get('variant'))
+            if len(vs) == 1:
+                makers[b.key] = vs.pop()
+                rep.analysed(b)
+    if len(name_of) < 2 or len(makers) < 2:
+        raise CheckBroken('R19.10: algorithm names %s / key constructors %s not recovered' % (name_of, makers))
+    b = find_method(fx, 'begin_handshake_reply')
+    og = Origins(b, summaries=True)
+    P = Pos(b)
+    edges = list(switch_edges(b, fx, og))
+    n = 0
+    for bb, t in b.calls():
+        c = callee_res(t)
+        if c not in makers:
+            continue
+        n += 1
+        want = name_of.get(makers[c])
+        guard = []
+        for s_, t_, cond, lab in edges:
+            if cond[0] == 'call' and cond[1].endswith(('::eq', '::ne')) and has_field(cond, 'c_kagree_algo') and has_call(cond, 'extract_request') and \
+                    term_has(cond, lambda x: x == ('const', 'item', want)):
+                if (cond[1].endswith('::eq') and lab is True) or (cond[1].endswith('::ne') and lab is False):
+                    guard.append((s_, t_))
+        ok = bool(guard) and P.every_path_passes(None, (bb, 'term'), via_edges=guard, from_entry=True)
+        rep.check(ok, 'R19.10', 'begin_handshake_reply/%s' % c.rsplit('::', 1)[-1], '%s only when the request names %s' % (c.rsplit('::', 1)[-1], (want or '?').rsplit('::', 1)[-1]),
+                  'begin_handshake_reply generates a %s key pair on a path where the received c.kagree_algo was not found equal to %s: the replier answers with a key of another kind than '
+                  'the initiator uses, no common shared secret exists and two genuine participants cannot authenticate' % (makers[c], (want or '?').rsplit('::', 1)[-1]), b.where())
+    if n < 2:
+        raise CheckBroken('R19.10: begin_handshake_reply generates %d kinds of DH keys, expected 2' % n)
